@@ -82,6 +82,15 @@ class GCase:
             if T_MISMATCH in rest:
                 return ["peek() after step %d is not the value next() just returned" % rest.index(T_MISMATCH)]
             return diff(rest, base, "peek")
+        if v == "serde_each":
+            flags, outs = rest[0::2], rest[1::2]
+            r = diff(outs, base, "serde_each")
+            for i, f in enumerate(flags):
+                if f != 1:
+                    r.append("snapshot before step %d: %s" % (i, "the serialized instance is rejected by its own Deserialize" if f == T_ERR
+                             else "the restored instance does not continue bit-identically (or serializes differently)"))
+                    break
+            return r
         if v == "serde":
             if rest and rest[-1] == T_ERR and -77 not in rest:
                 return ["the serialized instance could not be deserialized"]
@@ -91,6 +100,24 @@ class GCase:
                 r.append("the same history does not serialize to the same snapshot")
             return r
         return None
+
+
+def gen_serde_each(rng, tier):
+    """every snapshot point of a stream: tie-alphabet de Bruijn sequence (all window contents) + regime streams"""
+    from .select import de_bruijn, ALPHA
+    cases = []
+    db = [ALPHA[i] for i in de_bruijn(len(ALPHA), 4 if tier == "quick" else 5)]
+    for name, (lo, hi, peekable) in METHODS.items():
+        r = rng.fork("se-" + name)
+        for n in sorted(set(max(lo, k) for k in (1, 2, 3, 4))):
+            if n <= hi:
+                cases.append(GCase(name, "serde_each", n, db[0], db, str(2 * n + 2), kind="serde-each-debruijn"))
+        for k in range(2 if tier == "quick" else 8):
+            n = max(lo, min(hi, r.choice([1, 2, 3, 5, 9, 14, 30])))
+            x0, xs, regime = gens.stream(r, 80 if tier == "quick" else 300)
+            xs = [x if x == x and abs(x) != float("inf") else 1.0 for x in xs]
+            cases.append(GCase(name, "serde_each", n, x0 if x0 == x0 and abs(x0) != float("inf") else 1.0, xs, str(n + 3), kind="serde-each"))
+    return cases
 
 
 def gen(rng, tier, variants=None, names=None):
@@ -125,6 +152,9 @@ def gen(rng, tier, variants=None, names=None):
                     x0, xs, regime = gens.stream(r, steps, regime=regime)
                     if regime == "dyadic":   # exact arithmetic with long flats
                         xs = [xs[(i // 7) * 7] for i in range(len(xs))]
-                    extra = str(r.range(0, steps)) if v in ("clone", "serde") else ""
-                    cases.append(GCase(name, v, n, x0, xs, extra, kind="glue-directed"))
+                    if v in ("clone", "serde"):
+                        for at in sorted(set([n, n + 1, 2 * n + 1] + [r.range(0, steps - 5) for _ in range(4)])):
+                            cases.append(GCase(name, v, n, x0, xs, str(at), kind="glue-directed"))
+                    else:
+                        cases.append(GCase(name, v, n, x0, xs, "", kind="glue-directed"))
     return cases
